@@ -4,6 +4,7 @@ package gen
 import (
 	"fmt"
 	"math"
+	"strings"
 
 	"0chain.net/chaincore/transaction"
 	"0chain.net/core/config"
@@ -89,7 +90,15 @@ func fee(t *rapid.T) currency.Coin {
 
 func (e *Env) recipient(t *rapid.T, from *sim.Wallet) string {
 	h := e.H
-	switch rapid.IntRange(0, 9).Draw(t, "toKind") {
+	switch rapid.IntRange(0, 10).Draw(t, "toKind") {
+	case 10:
+		// the same 64 hex digits in another letter case are still "a hash" for the transfer code
+		id := strings.ToUpper(encryption.Hash(fmt.Sprintf("upper-%d", rapid.IntRange(0, 2).Draw(t, "upper"))))
+		if rapid.Bool().Draw(t, "mixedCase") {
+			id = id[:32] + strings.ToLower(id[32:])
+		}
+		h.Know(id, "ADDR-"+id[:6])
+		return id
 	case 0:
 		return from.ID // self
 	case 1:
